@@ -83,6 +83,11 @@ CHECKS = {
    text="22 input families x 5 damage variants with n doubling from 6 to 1536 (quick) / 6144 (thorough), plus proptest-generated random compositions: the number of parsing-function calls (hook in cache_check!) must stay below 250 per token and the per-token rate must not rise on two successive doublings; CPU time growing >12x on two successive doublings and hangs (watchdog, attributed to the announced input) are violations too. Decides linearity of the memoised parser on the explored families; says nothing about families not listed.",
    note="Needs the parser hook (feature verif). The constant was calibrated on the pinned tree (max observed about 60 calls per token).",
    ref="DESIGN.md section 3, C17"),
+ "C19": dict(
+   technique="property-based testing (proptest) with metamorphic relations between a program and its rewrites",
+   text="Metamorphic testing without any reference semantics: accepted generated programs (a quarter annotation-erased) are rewritten 1-4 times (consistent renaming to ASCII / keyword-like / non-ASCII names, redundant parentheses, unused definitions wrapped around a node or inserted into a group, naming a node by a definition, annotated identity applied, `if true then e else e`, swapping independent adjacent function definitions); the rewritten program must be accepted, gram's own conversion must judge the two reported types equal, and the step loop must end the same way (same literal / kind; identical value for parentheses-only rewrites); a sample is compared through `gram check` / `gram run`. Guards against errors shared by the other checks' reference models and the code. Sampled.",
+   note="Value-changing rewrites are not applied at the root of a definition (syntactic value-ness matters to the definition-order check); one recorded finding (un-annotated definition of a term with unsolved holes) is matched by that shape.",
+   ref="DESIGN.md section 3, C19"),
 }
 NOT_YET = {}
 
